@@ -3,6 +3,13 @@
 import json
 
 CHECKS = {
+    "C02": dict(level="other", tech="typed-HIR walk of every Pairs/Pair impl: ordered forward list vs child-bearing fields; look-ahead classified by effect tree",
+                text="Which nodes contribute tokens and in what order: every Pairs impl (320+, incl. Seq2..13, Choice2..13, 259 Unicode leaves, containers) "
+                     "forwards each child-bearing field exactly once in declaration order (Skipped: skipped then matched), choices forward the "
+                     "matched variant's payload, look-ahead nodes (class POS/NEG by their effect trees) forward nothing, silent rules forward "
+                     "content, other rules emit exactly themselves, (compound-)atomic rules report no children, as_token/to_thin copy rule/span/children.",
+                note="Does not decide equality with pest's tree on inputs or span values.",
+                ref="§4 C02"),
     "C03": dict(level="other", tech="twin equality of effect decision trees built from typed HIR (path-sensitive abstract evaluation, helpers inlined)",
                 text="For every TypedNode / NeverFailedTypedNode / ParsableTypedNode impl in pest_typed and in a fixture that expands every "
                      "exported rule macro (plus the default entry methods and rule::parse/check), the parse method and the check method "
